@@ -73,13 +73,26 @@ def run(ctx):
     ctx.proof_step(PROPS_FILE)
     n = 60 if ctx.tier == "quick" else 800
     from props import c05
-    sysm = c05.e2e_fractional() + c05.e2e_edges()[::2] + c05.e2e_systematic(ctx)[::11]
+    from vlib.pairwise import pairwise
+    pw = [r for _, r in pairwise()]
+    sysm = c05.e2e_fractional() + c05.e2e_edges()[::2] + c05.e2e_systematic(ctx)[::11] + pw
     cases = build_cases(ctx, len(sysm) + n, None, CLASSES, "c02x", docs_per=3 if ctx.tier == "quick" else 5, max_docs=60, extra_schemas=sysm)
-    ints = [r for r in sysm if '"integer"' in json.dumps(r)]
+    from vlib.pairwise import sized_enum
+    ints = [r for r in sysm if '"integer"' in json.dumps(r) and not sized_enum(r)]
     ms = build_cases(ctx, len(ints), None, CLASSES, "c02m", docs_per=3, max_docs=60, extra_schemas=ints, minsized=True)
     for c in ms:
         c.fam = "min-sized/" + c.fam
     cases = cases + ms
+    # every accepted spelling of every format, at a required, an optional and an item position (incl. the values that coincide with Go zero values)
+    from vlib.kitchen import FMT_GOOD, Case
+    for fi, (fmt, goods) in enumerate(sorted(FMT_GOOD.items())):
+        leaf = {"type": "string", "format": fmt}
+        root = {"type": "object", "properties": {"r": leaf, "o": leaf, "l": {"type": "array", "items": leaf}}, "required": ["r"]}
+        docs = []
+        for g in goods:
+            docs.append({"doc": {"r": g}, "cls": "valid", "path": ()})
+            docs.append({"doc": {"r": goods[0], "o": g, "l": [g, goods[-1]]}, "cls": "valid", "path": ()})
+        cases.append(Case("c02f%d" % fi, root, docs, fam="formats"))
     run_cases(ctx, cases, "c02")
     nv = evaluate(ctx, cases, CLASSES, {k: "valid" for k in CLASSES}, "valid documents")
     for c in cases:
